@@ -29,7 +29,7 @@ fn probe_a() {
     pre.primary = sym::pool();
     pre.swap_impact = sym::pool();
     pre.fee = sym::pool();
-    let r = check_swap(&mut pre, kani::any(), kani::any(), any_prices_u8());
+    let r = check_swap(&mut pre, kani::any(), kani::any(), any_prices_u8(), true, true);
     kani::cover!(r.is_some(), "swap succeeded");
     kani::cover!(r.is_none(), "swap failed");
 }
@@ -42,14 +42,23 @@ fn probe_b() {
     pre.primary = sym::pool();
     pre.swap_impact = sym::pool();
     pre.fee = sym::pool();
-    let r = check_swap(&mut pre, true, kani::any(), any_prices_u8());
+    let r = check_swap(&mut pre, true, kani::any(), any_prices_u8(), true, true);
     kani::cover!(r.is_some(), "swap succeeded");
     kani::cover!(r.is_none(), "swap failed");
 }
 
+// does concretisation prune symex? pool_value with no open interest / no borrowing state
 #[kani::proof]
-fn probe_rt6() {
-    let (v, p, s): (u8, u8, u8) = (kani::any(), kani::any(), kani::any());
-    kani::assume(v < 64 && p < 64 && s < 64);
-    crate::c06_liquidity::check_conversion_round_trip::<u8, i32>(v, p, s);
+#[kani::unwind(1)]
+fn probe_pv_lean() {
+    let mut m = crate::c06_liquidity::base_market_u8();
+    m.primary = sym::pool();
+    m.position_impact = sym::pool();
+    m.pi_distribute_factor = kani::any();
+    m.pi_min_pool_amount = kani::any();
+    m.passed_pi_distribution = kani::any();
+    kani::assume(m.passed_pi_distribution <= 255);
+    let p = prices(sym::price_u8(), sym::price_u8(), sym::price_u8());
+    let r = crate::c06_liquidity::check_pool_value_u8(&m, &p, kani::any(), kani::any());
+    kani::cover!(matches!(r, Some(v) if v > 0), "positive pool value");
 }
